@@ -64,7 +64,7 @@ def run(ctx):
     wg = f"{RB}:generate_simple_plan"
     from ..astutil import bind_roles, canonicalise
 
-    fg = canonicalise(fg, bind_roles(fg, {"order": ("assign", "~topo_sort\\(.*\\)")}, wg))
+    fg = canonicalise(fg, bind_roles(fg, {"order": ("assign", "~topo_sort\\(.*\\)"), "replace_map": ("return", None, None)}, wg))
     main = [n for n in walk_own(fg) if isinstance(n, ast.For) and any(isinstance(x, ast.Subscript) and isinstance(x.ctx, ast.Store) and norm(x.value) == "replace_map" for x in ast.walk(n))]
     ctx.require(len(main) == 1 and isinstance(main[0].iter, ast.Name), f"{wg}: the loop that fills replace_map was not found")
     todo = main[0].iter.id
@@ -89,6 +89,10 @@ def run(ctx):
     wt = f"{RB}:generate_transpose_plan"
     from ..cfg import build_cfg
 
+    ft = canonicalise(ft, bind_roles(ft, {"replace_map": ("return", None, None), "processed": ("assign", "set()")}, wt))
+    ch = sorted({norm(n.value) for n in ast.walk(ft) if isinstance(n, ast.Subscript) and isinstance(n.ctx, ast.Store) and isinstance(n.value, ast.Name) and isinstance(n.parent if hasattr(n, "parent") else None, type(None)) and any(isinstance(s_, ast.Assign) and s_.targets[0] is n and norm(s_.value) == "[]" for s_ in ast.walk(ft))})
+    if len(ch) == 1:
+        ft = canonicalise(ft, {"children": ch[0]})
     gt = build_cfg(ft)
     rec = [n.id for n in gt.nodes if n.kind == "stmt" and isinstance(n.ast, ast.Assign) and isinstance(n.ast.targets[0], ast.Subscript) and norm(n.ast.targets[0].value) == "replace_map" and isinstance(n.ast.value, ast.Tuple)]
     inner = [n for n in gt.nodes if n.kind == "for" and norm(n.ast.iter).startswith("children[")]
